@@ -139,6 +139,8 @@ func (q *Queue) Add(elem *queue.Elem) (err error) {
 	var dropErr error
 	var dropBytes []byte
 	var dropElem *queue.Elem
+	// dropIndex is the list index of the dropped inflight message.
+	var dropIndex int
 	var drop bool
 	defer func() {
 		conn.Close()
@@ -150,7 +152,10 @@ func (q *Queue) Add(elem *queue.Elem) (err error) {
 		if drop {
 			if dropErr == queue.ErrDropExpiredInflight {
 				q.notifier.NotifyInflightAdded(-1)
-				q.current--
+				// the cursor only moves if the message has already been read
+				if dropIndex < q.current {
+					q.current--
+				}
 			}
 			if dropBytes == nil {
 				q.notifier.NotifyDropped(elem, dropErr)
@@ -185,10 +190,11 @@ func (q *Queue) Add(elem *queue.Elem) (err error) {
 			if err != nil {
 				return
 			}
-			// inflight message
-			if i < q.current && queue.ElemExpiry(now, e) {
+			// inflight message (after Init it may not have been returned by ReadInflight yet)
+			if e.ID() != 0 && queue.ElemExpiry(now, e) {
 				dropBytes = b
 				dropElem = e
+				dropIndex = i
 				dropErr = queue.ErrDropExpiredInflight
 				return
 			}
